@@ -82,6 +82,7 @@ def _child(job: Job, mode: str, suppress, conn):
             return msg
 
         core.make_counterexample_message = mk
+        _patch_symbolic_str_eq()
         if job.params.get("_reals_exact", True):
             # CrossHair caps every result at UNKNOWN once a float is modelled as a real, because real arithmetic is
             # not float arithmetic. The encoded code only COMPARES and MOVES numbers (no float arithmetic), and Python
@@ -95,7 +96,7 @@ def _child(job: Job, mode: str, suppress, conn):
         h.MODE = mode
         h.P = dict(job.params)
         h.SUPPRESS = frozenset(suppress)
-        for k in [k for k in sys.modules if k == job.module]:
+        for k in [k for k in sys.modules if k == job.module or k.startswith("harness.")]:
             del sys.modules[k]
         mod = importlib.import_module(job.module)
         if job.setup:
@@ -145,6 +146,43 @@ def _child(job: Job, mode: str, suppress, conn):
         conn.send(res)
     finally:
         conn.close()
+
+
+def _patch_symbolic_str_eq():
+    """CrossHair 0.0.110 compares the code-point containers of two symbolic strings with ==; a tuple-backed one (an
+    argument) and a list-backed one (result of + / slicing) then compare unequal although the texts are equal
+    ((s + "\\n")[:-1] == s is False). Replace it by an element-wise comparison (precise, still symbolic)."""
+    import crosshair.libimpl.builtinslib as bl
+    from crosshair.tracers import NoTracing, ResumedTracing
+
+    def _eq(self, other):
+        with NoTracing():
+            a = self._codepoints
+            if isinstance(other, bl.LazyIntSymbolicStr):
+                b = other._codepoints
+            elif isinstance(other, str):
+                b = [ord(ch) for ch in other]
+            else:
+                return NotImplemented
+            with ResumedTracing():
+                if len(a) != len(b):
+                    return False
+                i = 0
+                n = len(a)
+                while i < n:
+                    if a[i] != b[i]:
+                        return False
+                    i += 1
+                return True
+
+    def _ne(self, other):
+        r = _eq(self, other)
+        if r is NotImplemented:
+            return r
+        return not r
+
+    bl.LazyIntSymbolicStr.__eq__ = _eq
+    bl.LazyIntSymbolicStr.__ne__ = _ne
 
 
 def _plain(v):
